@@ -31,7 +31,8 @@ from common import Driver, Report, check_proofs, proof_coverage, rng, hexs
 from families import quiet_traces
 from gen import Cfg, G
 from recipes import B, N, U, Program, Sub, Var, compile_real, gen_ctx, render_ctx, pack, unpack
-from shrink import children_paths, clone, get_at, set_at
+from shrink import children_paths, clone, get_at, set_at, type_of
+N_TYPE = "none"
 
 # AnnotLemmas: the splitlines / comment-line lemmas shared with C04 §5 (label lines)
 PROOF_MODULES = ["PyTealV.Proofs.C18", "PyTealV.Proofs.AnnotLemmas"]
@@ -321,6 +322,28 @@ def wrap_points(prog: Program):
     return pts
 
 
+def has_return(n) -> bool:
+    """PyTeal's Expr.has_return(): does every path through `n` leave the routine?  (A comment appended after such a
+    statement changes how the enclosing Seq / If is TYPED - `Seq.has_return` looks at its last element only - which is
+    a typing rule of the language, not an effect of the annotation on the code.)"""
+    if not (isinstance(n, tuple) and n and isinstance(n[0], str)):
+        return False
+    t = n[0]
+    if t in ("ret", "approve", "reject", "exit", "err"):
+        return True
+    if t == "seq":
+        return bool(n[1]) and has_return(n[1][-1])
+    if t == "if":
+        return n[3] is not None and has_return(n[2]) and has_return(n[3])
+    if t == "cond":
+        return all(has_return(b) for _c, b in n[1])
+    if t in ("comment", "pragma"):
+        return n[2] is not None and has_return(n[2])
+    if t == "nonce":
+        return has_return(n[4])
+    return False
+
+
 def stmt_points(prog: Program):
     """(owner, path of a seq node, index): a comment statement can be inserted in front of element index"""
     pts = []
@@ -329,6 +352,24 @@ def stmt_points(prog: Program):
             if n[0] == "seq":
                 for i in range(len(n[1])):
                     pts.append((owner, path, i))
+                if n[1] and type_of(n) == N_TYPE and n[1][-1][0] not in ("break", "continue") and not has_return(n[1][-1]):
+                    # AFTER the last statement of a statement sequence (a branch arm or loop body ending in a comment)
+                    pts.append((owner, path, len(n[1])))
+    return pts
+
+
+def arm_points(prog: Program):
+    """(owner, path of a branch arm / loop body that is a single statement, not a Seq): the arm can become Seq(arm, Comment)"""
+    pts = []
+    for owner, root in reachable_roots(prog):
+        for path, n in children_paths(root):
+            if n[0] == "if" and type_of(n) == N_TYPE:
+                for k in (2, 3):
+                    a = n[k]
+                    if a is not None and a[0] != "seq" and type_of(a) == N_TYPE and a[0] not in ("break", "continue") and not has_return(a):
+                        pts.append((owner, path + (k,)))
+            if n[0] == "while" and n[2][0] != "seq" and n[2][0] not in ("break", "continue") and not has_return(n[2]):
+                pts.append((owner, path + (2,)))
     return pts
 
 
@@ -392,6 +433,19 @@ def variants(prog: Program, r, tier, ranges, stats):
         t = gen_text(r)
         new = set_at(root, path, ("seq", n[1][:i] + [("comment", t, None)] + n[1][i:]))
         out.append(Variant("comment-stmt", with_root(prog, owner, new), {"text": t, "owner": owner, "path": list(path), "index": i}))
+    tails = [pt_ for pt_ in sps if pt_[2] == len(get_at(dict(roots(prog))[pt_[0]], pt_[1])[1])]
+    for owner, path, i in pick(tails, 2):
+        root = dict(roots(prog))[owner]
+        n = get_at(root, path)
+        t = gen_text(r)
+        new = set_at(root, path, ("seq", n[1] + [("comment", t, None)]))
+        out.append(Variant("comment-stmt", with_root(prog, owner, new), {"text": t, "owner": owner, "path": list(path), "index": i, "trailing": True}))
+    for owner, path in pick(arm_points(prog), 2):
+        root = dict(roots(prog))[owner]
+        a = get_at(root, path)
+        t = gen_text(r)
+        new = set_at(root, path, ("seq", [a, ("comment", t, None)]))
+        out.append(Variant("comment-stmt", with_root(prog, owner, new), {"text": t, "owner": owner, "path": list(path), "index": 1, "trailing": True}))
     for owner, path, n in pick(wps, 3):
         root = dict(roots(prog))[owner]
         t = gen_text(r)
